@@ -52,7 +52,7 @@ func main() {
 	if e.budgetS == 0 {
 		e.budgetS = 900
 		if *tier == "thorough" {
-			e.budgetS = 2400
+			e.budgetS = 3600
 		}
 	}
 	if *logDir != "" {
